@@ -624,3 +624,9 @@ def path_form(path):
     if k == 3:
         return os.path.join(".", os.path.relpath(path)) + os.sep
     return path
+
+
+def number_from_form(name, v):
+    """inverse of number_form for replays: type name -> the value in that form"""
+    import numpy as np
+    return {"int": int, "int64": np.int64, "uint64": np.uint64, "float": float, "float64": np.float64}.get(name, int)(v)
